@@ -332,6 +332,7 @@ class CallMixin:
         self.stmt_asserts = con.ghost.get("asserts", {})
         self.str_shape = con.ghost.get("str_shape")
         self.net_cover = bool(con.ghost.get("net_cover"))
+        self.fresh_append = bool(con.ghost.get("fresh_append")) or self.net_cover
         from .engine import Vars as _V
         _V.types = self.loop_var_types
         self.call_depth = 0
@@ -378,6 +379,10 @@ class CallMixin:
             st.pc = st.pc + (tuple(f.children()) if z3.is_and(f) and f.num_args() > 1 else (f,))
         for ax in con.ghost.get("axioms", []):
             st.pc = st.pc + (ax() if callable(ax) else ax,)     # definitions of ghost functions (closed formulas)
+        for fn in con.ghost.get("defs", []):
+            # definitions of contract-local ghost predicates over the parameters (conservative: the symbol occurs in no
+            # precondition or postcondition, so nothing is demanded or assumed about it at call sites)
+            st.pc = st.pc + (self.as_bool(fn(cx0, **vals)),)
         self.entry_state = st.copy()
         # vacuity: the precondition must be satisfiable
         self.emit("cover", "pre", st, z3.BoolVal(False), expect="sat", note="precondition satisfiable")
